@@ -154,6 +154,32 @@ func TestVerifC14Handler(t *testing.T) {
 	snap("payload-3", n.p.handleTransactionPayload(ctx, conn, msg(priv, payload)))
 	n.close()
 
+	// ---- two DISTINCT transactions with byte-identical payloads: `twin` arrives with the payload, the private `priv`
+	//      without; when priv's payload message arrives the payload subscriber must be called for priv as well (its own
+	//      payload event), and a duplicate of that message must call nobody
+	{
+		ipath := filepath.Join(dir, "identical.db")
+		var icalls []string
+		in := c14Open(t, ipath, &icalls, &mu)
+		twin := dag.CreateSignedTestTransaction(2, time.Now(), nil, "application/vc+json", true, root)
+		isnap := func(what string, err error) {
+			time.Sleep(2 * time.Millisecond)
+			mu.Lock()
+			e := "nil"
+			if err != nil {
+				e = strings.SplitN(err.Error(), " (", 2)[0]
+			}
+			lines = append(lines, fmt.Sprintf("identical-%s err=%s calls=%d", what, e, len(icalls)))
+			mu.Unlock()
+		}
+		_ = in.state.Add(ctx, root, []byte{0, 0, 0, 1})
+		isnap("add-twin-with-payload", in.state.Add(ctx, twin, payload))
+		isnap("add-private", in.state.Add(ctx, priv, nil))
+		isnap("payload-1", in.p.handleTransactionPayload(ctx, conn, msg(priv, payload)))
+		isnap("payload-2", in.p.handleTransactionPayload(ctx, conn, msg(priv, payload)))
+		in.close()
+	}
+
 	// ---- how the REAL handlePrivateTxRetry (the "private" receiver registered by the real Configure) classifies:
 	//      database error -> retried; other error -> fatal (marked failed, shown by the protocol's diagnostics);
 	//      PAL not decryptable with our keys -> done; payload already there -> done
